@@ -15,7 +15,7 @@ FILES = ["autograd/tracer.py"]
 
 
 def _q(args):
-    sys.path[:0] = [runner.VERIF, "/repo"]
+    sys.path[:0] = [runner.VERIF, runner.REPO]
     warnings.filterwarnings("ignore")
     from ..sched import encode, extract
 
@@ -31,7 +31,7 @@ def _q(args):
 def main(tier, only=None):
     t0 = time.time()
     warnings.filterwarnings("ignore")
-    sys.path[:0] = ["/repo"]
+    sys.path[:0] = [runner.REPO]
     from ..sched import encode, extract, replay_threads
 
     try:
@@ -128,7 +128,7 @@ def main(tier, only=None):
 
 
 def replay(path):
-    sys.path[:0] = ["/repo"]
+    sys.path[:0] = [runner.REPO]
     from ..sched import replay_threads
 
     d = json.load(open(path))
